@@ -118,6 +118,16 @@ def run_case(rng, tier, case):
         if abs(float(row['costs']) - wantc) > 1e-6 * (1 + abs(wantc)) or abs(float(row['value']) - frac[k]) > 1e-9:
             okc = False; bad = [k, float(row['costs']), wantc, float(row['value']), float(frac[k])]
     case.check('orders.costs_reported', okc and seen == set(inside), nonvacuous=executed, bad=bad, reported_orders=sorted(seen)[:10], in_horizon=inside[:10])
+    # the same objects on the same grid object a second time (the book then already holds the grid; another asset was the last to restrict it):
+    # delivery windows, payments and discounting of the orders are those of the first set-up
+    if rng.random() < 0.5:
+        from ..canon import problem_diff
+        rb = flow.run_portfolio(spec, built=r.built, do_optimize=False)
+        if not rb.ok:
+            case.check('orders.second_setup_same_problem', False, error=flow.describe_error(rb))
+        else:
+            d2 = problem_diff(Snap(r.op), Snap(rb.op), rtol=0., compare_mapping=True)
+            case.check('orders.second_setup_same_problem', d2 is None, diff=d2)
     # orders without in-horizon step are inert: the book without them gives the same problem on the remaining variables
     if len(inside) < n:
         sp2 = gen.strip_private(spec)
